@@ -164,6 +164,16 @@ package diff
 
 //@ func (*Zipper).isolateDivergence
 //@   noframe
+// C09: the two lists together hold one entry per instruction that was found unpaired and formatted - nothing is
+// merged or dropped afterwards (nFmt: ghost count of the formatInstr calls, one per appended entry)
+//@   ghost nFmt int
+//@   init nFmt = 0
+//@   call (*Zipper).formatInstr update nFmt = nFmt + 1
+//@   loop 1 invariant [C09.lists] len(r.Removed) == nFmt && len(r.Added) == 0
+//@   loop 2 invariant [C09.lists] len(r.Removed) == nFmt && len(r.Added) == 0
+//@   loop 3 invariant [C09.lists] len(r.Removed) + len(r.Added) == nFmt
+//@   loop 4 invariant [C09.lists] len(r.Removed) + len(r.Added) == nFmt
+//@   ensures [C09.lists] len(result.Added) + len(result.Removed) == nFmt
 //@   ensures [C04.iso] [C09.iso] result != nil && result.Preserved == (len(result.Added) == 0 && len(result.Removed) == 0)
 
 // ---- C03 / C02: a comparison is virtually negated (>= to <, > to <=, branches exchanged) only when that is sound
@@ -237,3 +247,12 @@ package diff
 //@   call Operands update rawLastLen = len(result)
 //@   return-ensures [C04.operands] sref(opsA) == rawPrevRef && len(opsA) == rawPrevLen && sref(opsB) == rawLastRef && len(opsB) == rawLastLen
 //@   return-ensures [C04.operands] result ==> len(opsA) == len(opsB)
+
+// ---- C17: the entry-block alignment compares at most MaxLCSWindow x MaxLCSWindow instruction pairs
+//@ func (*Zipper).alignEntryBlock
+//@   noframe
+//@   protocol-only C17
+//@   loop 1 invariant [C17.window] lenOld <= 100 && lenNew <= 100
+//@   loop 2 invariant [C17.window] lenOld <= 100 && lenNew <= 100
+//@   loop 3 invariant [C17.window] lenOld <= 100 && lenNew <= 100
+
